@@ -40,6 +40,19 @@ def run_script(kind, lines, timeout=1800, env=None):
         if start >= len(ops): break
     return res[:len(ops)] + ['CRASH'] * (len(ops) - len(res))
 
+def run_parallel(kind, lines, nproc=8, timeout=3000, env=None):
+    """run_script over `nproc` harness processes (order preserved) — for ops that take seconds each (Groth16 proofs)"""
+    import concurrent.futures
+    ok, o = build(kind)
+    if not ok: raise RuntimeError('harness build failed (%s):\n%s' % (kind, o[-4000:]))
+    chunks = [lines[i::nproc] for i in range(nproc)]
+    with concurrent.futures.ThreadPoolExecutor(max_workers=nproc) as ex:
+        outs = list(ex.map(lambda c: run_script(kind, c, timeout=timeout, env=env) if c else [], chunks))
+    res = [None] * len(lines)
+    for i, c in enumerate(outs):
+        for j, o in enumerate(c): res[i + j * nproc] = o
+    return res
+
 def list_ops(kind):
     ok, o = build(kind)
     if not ok: raise RuntimeError('harness build failed (%s):\n%s' % (kind, o[-4000:]))
